@@ -6,20 +6,27 @@ package syncserver
 // fillBatchFromInputQueue can form: messages are slurped while the running size is < MaxBatchSize), the REAL
 // syncproto.SerializeUpdate / WouldBeNoOp / ToUpdate and the REAL syncserver.writeSnapshotMessages (run in a
 // goroutine that is lock-stepped chunk by chunk, so cache publications interleave with a snapshot in flight).
-// The delta phase follows Breadcrumb.next exactly like sendDeltaUpdatesToClient: coalesce j>=1 crumbs (only
-// while fewer than MaxMessageSize deltas are buffered), send them, then send the newest crumb's status if it
-// differs from the last status sent. The client side is SyncerClient.loop's core: ToUpdate per KV into a map.
+// The delta phase is the REAL connection.sendDeltaUpdatesToClient (real Breadcrumb.Next, coalescing, order of
+// KVs/status writes through the real sendMsg + gob), lock-stepped at the wire flush, at the sender's cache peek
+// (answered "behind"/"not behind") and at Next's blocking path. The client side is SyncerClient.loop's core.
 //
 // Clients never influence the server or one another, so one client that may join, leave and re-join at any
 // point covers every join point; "slow" = the server-side sender is scheduled rarely (coalescing).
 
 import (
+	"bytes"
 	"context"
+	"encoding/gob"
 	"fmt"
+	"io"
+	"math"
+	"net"
 	"sort"
 	"strconv"
 	"strings"
+	"sync"
 	"testing"
+	"time"
 
 	"github.com/sirupsen/logrus"
 
@@ -52,7 +59,7 @@ type c24Ev struct {
 	M   []c24KV `json:",omitempty"` // in: the updates of one OnUpdates message
 	S   int     `json:",omitempty"` // in: status+1 of one OnStatusUpdated message (0 = not a status message)
 	Cut bool    `json:",omitempty"` // in: the cache's loop stops slurping after this message and publishes
-	J   int     `json:",omitempty"` // serve: number of crumbs coalesced
+	J   int     `json:",omitempty"` // serve: answer to the sender's "how far behind am I" peek: 1 not behind, 2 behind (keeps coalescing)
 }
 
 func (e c24Ev) String() string { return vk.JSON(e) }
@@ -73,21 +80,27 @@ func c24Path(k model.Key) string {
 }
 
 type c24Client struct {
-	ctx      context.Context
-	cancel   context.CancelFunc
-	crumb    *snapcache.Breadcrumb // position: everything up to and including this crumb has been sent
-	joined   *snapcache.Breadcrumb
-	phase    int // 1 snapshot in flight, 2 following deltas
-	view     map[string]string
-	lastRev  map[string]int
-	status   api.SyncStatus
-	told     bool
-	lastSent api.SyncStatus
-	ready    chan []syncproto.SerializedUpdate
-	resume   chan struct{}
-	pending  []syncproto.SerializedUpdate // next snapshot chunk, already produced by writeSnapshotMessages
-	chunks   int
-	badKVs   int
+	ctx       context.Context
+	cancel    context.CancelFunc
+	crumb     *snapcache.Breadcrumb // newest breadcrumb the real sender has obtained
+	iterStart *snapcache.Breadcrumb // everything up to this breadcrumb is known to have been sent
+	joined    *snapcache.Breadcrumb
+	phase     int    // 1 snapshot in flight, 2 following deltas
+	parked    string // "" running/snapshot chunk pending, "peek", "blocked" (waiting in Breadcrumb.Next), "exit"
+	view      map[string]string
+	lastRev   map[string]int
+	status    api.SyncStatus
+	told      bool
+	lastSent  api.SyncStatus
+	sig       chan c24Sig
+	resume    chan bool
+	// next snapshot chunk, already produced and gob-encoded by the real sendMsg
+	pendingMsg    any
+	hasPending    bool
+	chunks        int
+	badKVs        int
+	msgsSincePeek int
+	lastBehind    bool
 }
 
 type c24Inst struct {
@@ -127,6 +140,7 @@ func (s *c24Inst) close() {
 	if s.cl != nil {
 		s.cl.cancel()
 	}
+	s.cache.VerifWake()
 	s.cache.VerifStop()
 }
 
@@ -208,6 +222,13 @@ func (s *c24Inst) input(e c24Ev) {
 func (s *c24Inst) publish() {
 	before := s.cache.CurrentBreadcrumb()
 	s.cache.VerifPublish(s.batch)
+	defer func() {
+		// a sender that was waiting in Breadcrumb.Next has been woken by the real Broadcast
+		if cl := s.cl; cl != nil && cl.parked == "blocked" && cl.crumb.VerifNext() != nil {
+			cl.parked = ""
+			s.run()
+		}
+	}()
 	final := s.batchFold[len(s.batchFold)-1]
 	hadSync := s.batchSync > 0
 	for b := before.VerifNext(); b != nil; b = b.VerifNext() {
@@ -233,7 +254,74 @@ func (s *c24Inst) publish() {
 	s.batch, s.batchDesc, s.batchFold, s.batchSync, s.batchSize = nil, nil, nil, 0, 0
 }
 
-// ---- server connection + client ----
+// ---- server connection (REAL connection.streamSnapshotToClient / sendDeltaUpdatesToClient / sendMsg) + client ----
+//
+// One goroutine per joined client runs exactly what connection.handle runs after the handshake: the snapshot
+// through h.sendMsg, then sendDeltaUpdatesToClient. It is lock-stepped at three seams:
+//   - h.flushWriter (called by sendMsg after gob-encoding a message): the bytes are gob-decoded again and the
+//     message is handed to the explorer = the wire order of KVs and status messages comes from the real code;
+//   - h.cache.CurrentBreadcrumb() (the "how far behind am I" peek after every Breadcrumb.Next): the explorer
+//     answers with a timestamp that makes the client "behind" (coalesce more) or "not behind";
+//   - h.cxt.Err() called with the breadcrumb cond's mutex held = Breadcrumb.Next's slow path: the goroutine
+//     reports that it is about to wait for the next breadcrumb (it is woken by the real Broadcast).
+
+type c24Sig struct {
+	kind string // msg | peek | blocked | snapdone | exit
+	msg  any
+}
+
+type c24Conn struct{}
+
+func (c24Conn) Read([]byte) (int, error)         { return 0, io.EOF }
+func (c24Conn) Write(b []byte) (int, error)      { return len(b), nil }
+func (c24Conn) Close() error                     { return nil }
+func (c24Conn) LocalAddr() net.Addr              { return &net.TCPAddr{} }
+func (c24Conn) RemoteAddr() net.Addr             { return &net.TCPAddr{} }
+func (c24Conn) SetDeadline(time.Time) error      { return nil }
+func (c24Conn) SetReadDeadline(time.Time) error  { return nil }
+func (c24Conn) SetWriteDeadline(time.Time) error { return nil }
+
+type c24Ctx struct {
+	context.Context
+	s  *c24Inst
+	cl *c24Client
+}
+
+func (c *c24Ctx) Err() error {
+	if err := c.Context.Err(); err != nil {
+		return err
+	}
+	if c.s.cache.VerifCondLocked() {
+		c.cl.sig <- c24Sig{kind: "blocked"} // buffered: never blocks while the cond mutex is held
+	}
+	return nil
+}
+
+type c24Provider struct {
+	s  *c24Inst
+	cl *c24Client
+}
+
+func (p *c24Provider) CurrentBreadcrumb() *snapcache.Breadcrumb {
+	p.cl.sig <- c24Sig{kind: "peek"}
+	behind := false
+	select {
+	case behind = <-p.cl.resume:
+	case <-p.cl.ctx.Done():
+	}
+	real := p.s.cache.CurrentBreadcrumb()
+	// only Timestamp (age) and SequenceNumber/KVs.Len (logging) of the peeked crumb are used by the sender
+	ts := time.Time{} // age hugely negative: "not behind"
+	if behind {
+		ts = time.Unix(1<<40, 0) // age saturates: "behind" (MaxFallBehind is MaxInt64, so never "too far behind")
+	}
+	return &snapcache.Breadcrumb{SequenceNumber: real.SequenceNumber, Timestamp: ts, KVs: real.KVs, SyncStatus: real.SyncStatus}
+}
+
+var (
+	c24MetricsOnce sync.Once
+	c24Metrics     perSyncerConnMetrics
+)
 
 func (s *c24Inst) deliverKVs(kvs []syncproto.SerializedUpdate) {
 	cl := s.cl
@@ -257,96 +345,178 @@ func (s *c24Inst) deliverKVs(kvs []syncproto.SerializedUpdate) {
 	}
 }
 
-func (s *c24Inst) checkView(key string) {
+// deliver is SyncerClient.loop's handling of one message from the wire.
+func (s *c24Inst) deliver(msg any) {
 	cl := s.cl
-	if got, want := c24Map(cl.view), c24Map(c24Vals(cl.crumb)); got != want {
-		s.fail(key, "client has consumed up to breadcrumb %d: its view is %s, the server's view at that breadcrumb is %s", cl.crumb.SequenceNumber, got, want)
+	cl.msgsSincePeek++
+	switch m := msg.(type) {
+	case syncproto.MsgKVs:
+		s.deliverKVs(m.KVs)
+	case syncproto.MsgSyncStatus:
+		cl.lastSent = m.SyncStatus
+		cl.status = m.SyncStatus
+		if m.SyncStatus == api.InSync {
+			cl.told = true
+			// the view held right now must be some breadcrumb's view that is at least as new as the in-sync snapshot
+			ok := false
+			for b := cl.joined; b != nil; b = b.VerifNext() {
+				if (s.okSync[b.SequenceNumber]) && c24Map(c24Vals(b)) == c24Map(cl.view) {
+					ok = true
+				}
+				if b == cl.crumb {
+					break
+				}
+			}
+			if !ok {
+				s.fail("insync-too-early", "client told in-sync while holding %s (server sender is at breadcrumb %d), which is older than the snapshot at which the server was in sync", c24Map(cl.view), cl.crumb.SequenceNumber)
+			}
+		}
+	default:
+		s.fail("unexpected-message", "unexpected message on the wire: %T", msg)
 	}
 }
 
-// maybeSendStatus mirrors the closure of the same name in sendDeltaUpdatesToClient.
-func (s *c24Inst) maybeSendStatus() {
+func (s *c24Inst) checkView(key string, b *snapcache.Breadcrumb) {
 	cl := s.cl
-	if cl.lastSent == cl.crumb.SyncStatus {
-		return
-	}
-	cl.lastSent = cl.crumb.SyncStatus
-	cl.status = cl.crumb.SyncStatus
-	if cl.status == api.InSync {
-		cl.told = true
-		if !s.okSync[cl.crumb.SequenceNumber] && cl.crumb.SequenceNumber != 0 {
-			s.fail("insync-too-early", "client told in-sync at breadcrumb %d holding %s, which is older than the snapshot at which the server was in sync", cl.crumb.SequenceNumber, c24Map(cl.view))
-		}
+	if got, want := c24Map(cl.view), c24Map(c24Vals(b)); got != want {
+		s.fail(key, "everything up to breadcrumb %d has been sent: client view is %s, the server's view at that breadcrumb is %s", b.SequenceNumber, got, want)
 	}
 }
 
 func (s *c24Inst) join() {
 	ctx, cancel := context.WithCancel(s.ctx)
 	cl := &c24Client{ctx: ctx, cancel: cancel, view: map[string]string{}, lastRev: map[string]int{}, phase: 1,
-		ready: make(chan []syncproto.SerializedUpdate), resume: make(chan struct{})}
+		sig: make(chan c24Sig, 256), resume: make(chan bool)}
 	cl.crumb = s.cache.CurrentBreadcrumb()
 	cl.joined = cl.crumb
+	cl.iterStart = cl.crumb
 	s.cl = cl
 	s.joins++
-	maxMsg := s.p.MaxMsg
-	go func() {
-		_ = writeSnapshotMessages(ctx, logrus.WithField("verif", "c24"), cl.joined, func(msg any) error {
-			m := msg.(syncproto.MsgKVs)
-			cp := append([]syncproto.SerializedUpdate(nil), m.KVs...) // the real sendMsg encodes before returning
-			select {
-			case cl.ready <- cp:
-			case <-ctx.Done():
-				return ctx.Err()
-			}
-			select {
-			case <-cl.resume:
-				return nil
-			case <-ctx.Done():
-				return ctx.Err()
-			}
-		}, maxMsg)
-		select {
-		case cl.ready <- nil:
-		case <-ctx.Done():
-		}
-	}()
-	cl.pending = <-cl.ready
-	if cl.pending == nil {
-		s.snapshotDone()
+	c24MetricsOnce.Do(func() { c24Metrics = makePerSyncerConnMetrics(syncproto.SyncerTypeFelix) })
+	var wire bytes.Buffer
+	dec := gob.NewDecoder(&wire)
+	h := &connection{
+		ID: 1,
+		config: &Config{MaxMessageSize: s.p.MaxMsg, MaxFallBehind: time.Duration(math.MaxInt64), NewClientFallBehindGracePeriod: time.Hour,
+			MinBatchingAgeThreshold: time.Second, WriteTimeout: time.Hour},
+		cxt:                  &c24Ctx{Context: ctx, s: s, cl: cl},
+		cancelCxt:            cancel,
+		cache:                &c24Provider{s: s, cl: cl},
+		syncerType:           syncproto.SyncerTypeFelix,
+		conn:                 c24Conn{},
+		encoder:              gob.NewEncoder(&wire),
+		logCxt:               logrus.WithField("verif", "c24"),
+		perSyncerConnMetrics: c24Metrics,
 	}
+	h.connW = &wire
+	h.flushWriter = func() error {
+		var env syncproto.Envelope
+		if err := dec.Decode(&env); err != nil {
+			return err
+		}
+		cl.sig <- c24Sig{kind: "msg", msg: env.Message}
+		select {
+		case <-cl.resume:
+			return nil
+		case <-ctx.Done():
+			return ctx.Err()
+		}
+	}
+	h.shutDownWG.Add(1)
+	joined := cl.joined
+	go func() {
+		defer func() { cl.sig <- c24Sig{kind: "exit"} }()
+		// what connection.handle does after the handshake (no binary-snapshot cache configured)
+		if err := h.streamSnapshotToClient(h.logCxt, joined); err != nil {
+			h.shutDownWG.Done()
+			return
+		}
+		cl.sig <- c24Sig{kind: "snapdone"}
+		h.sendDeltaUpdatesToClient(h.logCxt, joined)
+	}()
+	s.run()
 }
 
-func (s *c24Inst) snapshotDone() {
-	s.cl.phase = 2
-	s.checkView("snapshot-view-mismatch")
-	s.maybeSendStatus()
+// run lets the connection goroutine proceed until the explorer has a choice to make (next snapshot chunk,
+// behind/not-behind answer) or the goroutine waits for the next breadcrumb.
+func (s *c24Inst) run() {
+	cl := s.cl
+	t := time.NewTimer(120 * time.Second) // harness failure detector only
+	defer t.Stop()
+	for {
+		var sg c24Sig
+		select {
+		case sg = <-cl.sig:
+		case <-t.C:
+			panic("connection goroutine spins: no message, breadcrumb peek or wait for 120s")
+		}
+		switch sg.kind {
+		case "msg":
+			if cl.phase == 1 {
+				cl.pendingMsg = sg.msg // snapshot chunk: delivered by the next "snap" event
+				cl.hasPending = true
+				return
+			}
+			s.deliver(sg.msg)
+			cl.resume <- false
+		case "snapdone":
+			cl.phase = 2
+			s.checkView("snapshot-view-mismatch", cl.joined)
+		case "peek":
+			nxt := cl.crumb.VerifNext()
+			if nxt == nil {
+				panic("harness: sender obtained a breadcrumb that does not exist")
+			}
+			if cl.msgsSincePeek > 0 || !cl.lastBehind {
+				// the previous iteration is complete: everything up to cl.crumb has been sent
+				s.checkView("delta-view-mismatch", cl.crumb)
+				cl.iterStart = cl.crumb
+			}
+			cl.msgsSincePeek = 0
+			cl.crumb = nxt
+			cl.parked = "peek"
+			return
+		case "blocked":
+			if cl.crumb.VerifNext() != nil {
+				continue // re-check after a wake-up, or the publisher held the mutex: not going to wait
+			}
+			cl.parked = "blocked"
+			// caught up: every message of the last iteration is out
+			s.checkView("delta-view-mismatch", cl.crumb)
+			cl.iterStart = cl.crumb
+			cl.msgsSincePeek = 0
+			cl.lastBehind = false
+			return
+		case "exit":
+			cl.parked = "exit"
+			s.fail("sender-exited", "the delta sender goroutine terminated although nothing failed")
+			return
+		}
+	}
 }
 
 func (s *c24Inst) snap() {
 	cl := s.cl
-	s.deliverKVs(cl.pending)
+	s.deliver(cl.pendingMsg)
+	cl.pendingMsg, cl.hasPending = nil, false
 	cl.chunks++
-	cl.resume <- struct{}{}
-	cl.pending = <-cl.ready
-	if cl.pending == nil {
-		s.snapshotDone()
-	}
+	cl.resume <- false
+	s.run()
 }
 
-func (s *c24Inst) serve(j int) {
+func (s *c24Inst) serve(behind bool) {
 	cl := s.cl
-	var deltas []syncproto.SerializedUpdate
-	b := cl.crumb
-	for i := 0; i < j; i++ {
-		b = b.VerifNext()
-		deltas = append(deltas, b.Deltas...)
-	}
-	cl.crumb = b
-	if len(deltas) > 0 {
-		s.deliverKVs(deltas)
-	}
-	s.checkView("delta-view-mismatch")
-	s.maybeSendStatus()
+	cl.parked = ""
+	cl.lastBehind = behind
+	cl.resume <- behind
+	s.run()
+}
+
+func (s *c24Inst) leave() {
+	cl := s.cl
+	cl.cancel()
+	s.cache.VerifWake()
+	s.cl = nil
 }
 
 func c24Apply(s *c24Inst, e c24Ev) {
@@ -358,10 +528,9 @@ func c24Apply(s *c24Inst, e c24Ev) {
 	case "snap":
 		s.snap()
 	case "serve":
-		s.serve(e.J)
+		s.serve(e.J == 2)
 	case "leave":
-		s.cl.cancel()
-		s.cl = nil
+		s.leave()
 	default:
 		panic("harness: bad op " + e.Op)
 	}
@@ -419,17 +588,10 @@ func c24Enabled(s *c24Inst, inputs []c24Ev) []c24Ev {
 	case cl.phase == 1:
 		evs = append(evs, c24Ev{Op: "snap"}, c24Ev{Op: "leave"})
 	default:
-		n := 0
-		b := cl.crumb
-		for j := 1; j <= 3; j++ {
-			b = b.VerifNext()
-			if b == nil {
-				break
-			}
-			evs = append(evs, c24Ev{Op: "serve", J: j})
-			n += len(b.Deltas)
-			if n >= s.p.MaxMsg {
-				break // the coalescing loop runs only while len(deltas) < MaxMessageSize
+		if cl.parked == "peek" {
+			evs = append(evs, c24Ev{Op: "serve", J: 1}) // the sender is told it is not behind
+			if cl.crumb.VerifNext() != nil {
+				evs = append(evs, c24Ev{Op: "serve", J: 2}) // newer breadcrumbs exist and the sender is "behind": it coalesces
 			}
 		}
 		evs = append(evs, c24Ev{Op: "leave"})
@@ -502,7 +664,7 @@ func c24StateKey(s *c24Inst) string {
 	latest := s.cache.CurrentBreadcrumb()
 	start := latest
 	if s.cl != nil {
-		start = s.cl.crumb
+		start = s.cl.iterStart
 	}
 	var chain []*snapcache.Breadcrumb
 	for b := start; b != nil; b = b.VerifNext() {
@@ -518,8 +680,10 @@ func c24StateKey(s *c24Inst) string {
 		for _, v := range s.cl.lastRev {
 			r.add(v)
 		}
-		for _, u := range s.cl.pending {
-			r.add(u.Revision)
+		if m, ok := s.cl.pendingMsg.(syncproto.MsgKVs); ok {
+			for _, u := range m.KVs {
+				r.add(u.Revision)
+			}
 		}
 		for _, u := range c24Tree(s.cl.joined) {
 			r.add(u.Revision)
@@ -536,7 +700,7 @@ func c24StateKey(s *c24Inst) string {
 	np, ps := s.cache.VerifPending()
 	fmt.Fprintf(&b, "pend%d/%d|ever%v|joins%d|bad%d|", np, ps, s.everSync, s.joins, len(s.bad))
 	for i, c := range chain {
-		fmt.Fprintf(&b, "crumb[%s;st%d;ok%v", c24SUs(r, c24Tree(c)), c.SyncStatus, s.okSync[c.SequenceNumber] || c.SequenceNumber == 0)
+		fmt.Fprintf(&b, "crumb[%s;st%d;ok%v;at%v", c24SUs(r, c24Tree(c)), c.SyncStatus, s.okSync[c.SequenceNumber], s.cl != nil && c == s.cl.crumb)
 		if i > 0 {
 			fmt.Fprintf(&b, ";d:%s", c24SUs(r, c.Deltas))
 		}
@@ -561,9 +725,17 @@ func c24StateKey(s *c24Inst) string {
 			lr = append(lr, fmt.Sprintf("%s@%d", k[strings.LastIndex(k, "/")+1:], r.rank(v)))
 		}
 		sort.Strings(lr)
-		fmt.Fprintf(&b, "|cl ph%d view%s last%v st%d told%v sent%d chunks%d bad%d", cl.phase, c24Map(cl.view), lr, cl.status, cl.told, cl.lastSent, cl.chunks, min(cl.badKVs, 1))
+		fmt.Fprintf(&b, "|cl ph%d %s view%s last%v st%d told%v sent%d chunks%d bad%d behind%v msgs%d", cl.phase, cl.parked, c24Map(cl.view), lr, cl.status, cl.told, cl.lastSent, cl.chunks, min(cl.badKVs, 1), cl.lastBehind, min(cl.msgsSincePeek, 1))
 		if cl.phase == 1 {
-			fmt.Fprintf(&b, " joined[%s] pending[%s]", c24SUs(r, c24Tree(cl.joined)), c24SUs(r, cl.pending))
+			pm := ""
+			if m, ok := cl.pendingMsg.(syncproto.MsgKVs); ok {
+				pm = c24SUs(r, m.KVs)
+			}
+			fmt.Fprintf(&b, " joined[%s] pending[%v:%s]", c24SUs(r, c24Tree(cl.joined)), cl.hasPending, pm)
+		}
+		// are breadcrumbs that told the client in-sync relevant later? only those from joined.. are consulted
+		for c := cl.joined; c != nil && c != cl.iterStart; c = c.VerifNext() {
+			fmt.Fprintf(&b, " old[%s;ok%v]", c24Map(c24Vals(c)), s.okSync[c.SequenceNumber])
 		}
 	}
 	return b.String()
@@ -572,7 +744,7 @@ func c24StateKey(s *c24Inst) string {
 func c24Check(s *c24Inst, hist []c24Ev) []hbfs.Fail {
 	fails := append([]hbfs.Fail(nil), s.bad...)
 	// a client that has caught up with the newest breadcrumb holds exactly the published datastore view
-	if cl := s.cl; cl != nil && cl.phase == 2 && cl.crumb == s.cache.CurrentBreadcrumb() {
+	if cl := s.cl; cl != nil && cl.phase == 2 && cl.parked == "blocked" && cl.crumb == s.cache.CurrentBreadcrumb() {
 		if got, want := c24Map(cl.view), c24Map(s.foldPub); got != want {
 			fails = append(fails, hbfs.Fail{Key: "C24:caught-up-client-view-differs", Msg: fmt.Sprintf("caught-up client holds %s, datastore view %s", got, want)})
 		}
@@ -602,7 +774,7 @@ func c24Spec(c *vk.Ctx, p c24Params) *hbfs.Spec[*c24Inst, c24Ev] {
 			if cl == nil {
 				return "no-client server=" + c24Map(s.foldPub)
 			}
-			if c != nil && cl.phase == 2 && cl.crumb == s.cache.CurrentBreadcrumb() {
+			if c != nil && cl.phase == 2 && cl.parked == "blocked" {
 				c.Add("caught_up_client_states", 1)
 			}
 			return fmt.Sprintf("ph%d view=%s told=%v status=%d behind=%v", cl.phase, c24Map(cl.view), cl.told, cl.status, cl.crumb != s.cache.CurrentBreadcrumb())
@@ -656,8 +828,8 @@ func TestVerif_C24(t *testing.T) {
 		c.Rule("states = (real cache: btree, pending fields, breadcrumb chain from the client's position to the newest incl. deltas/status; batch being slurped; datastore views; client: phase, view, last revision per key, statuses, snapshot chunk in flight), revisions canonicalised to ranks; " +
 			"transitions = one upstream message (single/multi-update OnUpdates incl. deletes of absent keys and validation failures, OnStatusUpdated) with or without a batch cut (real publishBreadcrumbs), client join (real writeSnapshotMessages started), one snapshot chunk, one delta step coalescing 1-3 crumbs, leave; " +
 			"non-trivial = client joined a non-empty view or is behind the newest breadcrumb")
-		c.Assume("sendDeltaUpdatesToClient's loop is mirrored by the harness (follow next, coalesce while < MaxMessageSize buffered, send deltas then status if changed); its wall-clock choices (age-based batching, fall-behind disconnect, grace period) become free choices / are not explored")
-		c.Assume("gob framing, compression, TLS, ping/pong, write deadlines and Breadcrumb.Next's condition-variable blocking are not explored; the client is SyncerClient.loop's KV/status handling (ToUpdate per KV)")
+		c.Assume("the real connection.streamSnapshotToClient/sendDeltaUpdatesToClient/sendMsg run per client; crumb age is the explorer's behind/not-behind answer to the sender's cache peek, MaxFallBehind is MaxInt64 (fall-behind disconnect, grace period not reachable)")
+		c.Assume("TLS/sockets, compression restart, binary snapshot cache, ping/pong and the handshake are not explored; the client is SyncerClient.loop's KV/status handling (ToUpdate per KV) fed with the gob-decoded messages")
 		c.Assume("batches are exactly those fillBatchFromInputQueue can form for MaxBatchSize in {1,2,3}; MaxMessageSize in {1,2}")
 		all := c24AllSpecs()
 		if rf := c.ReplayFile(); rf != "" {
@@ -691,8 +863,8 @@ func TestVerif_C24(t *testing.T) {
 		}
 		c.Sample(map[string]any{"spec": "typha-b2-m1-graph", "history": []string{
 			`{"Op":"in","M":[{"K":"k1","V":"1"},{"K":"k2","V":"1"}],"Cut":true}`, `{"Op":"join"}`, `{"Op":"snap"}`,
-			`{"Op":"in","M":[{"K":"k1","V":"2"}],"Cut":true}`, `{"Op":"snap"}`, `{"Op":"in","S":3,"Cut":true}`, `{"Op":"serve","J":2}`},
-			"expect": "client joins at {k1=1,k2=1}, a publication lands between its two snapshot chunks, then one coalesced delta step brings k1=2 followed by the in-sync status"})
+			`{"Op":"in","M":[{"K":"k1","V":"2"}],"Cut":true}`, `{"Op":"snap"}`, `{"Op":"in","S":3,"Cut":true}`, `{"Op":"serve","J":2}`, `{"Op":"serve","J":1}`},
+			"expect": "client joins at {k1=1,k2=1}, a publication lands between its two snapshot chunks; the real delta sender then sends k1=2 and, after the next breadcrumb, the in-sync status"})
 		for _, p := range all[c.Tier()] {
 			if c.Expired() {
 				c.Capped("deadline before " + p.Name)
